@@ -275,6 +275,12 @@ pub proof fn lemma_lower_seq_idem(s: Seq<char>)
     }
 }
 
+// A-validated per char (exhaustive over all scalar values): lower-casing never yields the empty string
+#[verifier::external_body]
+pub proof fn axiom_lower_nonempty(c: char)
+    ensures u_to_lower(c).len() > 0
+{ }
+
 // ---- unit T.PurlField  <= purl/src/parse.rs:112 ----
 #[derive(Debug, Clone, Copy)]
 pub enum PurlField {
